@@ -65,6 +65,10 @@ def deb(r):
     s += up
     if r.random() < 0.6:
         s += "-" + r.choice(["0", "1", "2", "1ubuntu1", "1~bpo1", "0.1", "10", "1+b1", "01", "a"])
+    if ":" in s and r.random() < 0.05:
+        # Debian policy: with an epoch, the upstream version may itself contain colons
+        i = s.index(":") + 2
+        s = s[:i] + ":" + s[i:]
     return s
 
 
@@ -132,7 +136,7 @@ def maven_doc(r):
 def gem(r):
     s = dotted(r, 1, 5)
     if r.random() < 0.35:
-        s += r.choice([".", "-", ""]) + r.choice(["a", "b", "rc", "pre", "beta", "alpha", "rc1", "a1", "B"]) + r.choice(["", ".1", "2", ".0"])
+        s += r.choice([".", "-", "."]) + r.choice(["a", "b", "rc", "pre", "beta", "alpha", "rc1", "a1", "B"]) + r.choice(["", ".1", "2", ".0"])
     return s
 
 
